@@ -200,7 +200,7 @@ def shrink(prop, sc, target, budget=250, wall=90):
             while i < len(cur["ops"]):
                 cand = copy.deepcopy(cur)
                 seg = cand["ops"][i:i + chunk]
-                if any(o.get("op") == "start" for o in seg) and chunk > 1:
+                if any(o.get("op") == "start" for o in seg):
                     i += 1
                     continue
                 del cand["ops"][i:i + chunk]
@@ -234,7 +234,8 @@ def shrink(prop, sc, target, budget=250, wall=90):
             if ok(cand):
                 cur = cand
     # 3. machine: remove transitions / extra actions / states
-    cur = _shrink_machine(cur, ok)
+    if REGISTRY[prop].get("shrink_machine", True):
+        cur = _shrink_machine(cur, ok)
     if cur.get("ops"):
         cur = drop_ops(cur)
     return cur, used[0]
